@@ -224,6 +224,9 @@ func c20Format(raw string) c20Fmt {
 // and, independently of the text table, a variable's output never changes between two
 // renders unless something was appended to it or to a statement it was cloned from.
 func (c20) Oracle(c *Case, got []hist.Obs) string {
+	if c.Meta["kind"] == "snap" {
+		return c20sOracle(c, got) // c20_snap.go
+	}
 	ops := c.Meta["ops"].([]c20Op)
 	var vars []*c20Abs
 	type seen struct {
@@ -397,6 +400,12 @@ func c20Measure(ops []c20Op) (tags []string, nontrivial bool) {
 			}
 			if sh[op.V].parent >= 0 && len(sh[op.V].s) == 1 {
 				set["unmodified-clone-rendered"] = true
+				// depth of the chain of unmodified clones above the rendered one
+				d := 0
+				for v := op.V; sh[v].parent >= 0 && len(sh[v].s) == 1; v = sh[v].parent {
+					d++
+				}
+				set[fmt.Sprintf("unmodified-clone-depth=%d", d)] = true
 			}
 			if !same(mutant[op.V], value[op.V]) {
 				set["aliasing-hazard-observed"] = true
@@ -594,6 +603,9 @@ func (c20) Generate(r *rand.Rand, t string) []*Case {
 			}
 		}
 	}
+	// originals whose top level holds a case clause with chains of unmodified clones; clones as
+	// items inside groups of sibling clones (c20_snap.go)
+	out = append(out, c20sGenerate(r, t)...)
 	return out
 }
 
@@ -669,6 +681,9 @@ func (c20) Regressions() []*Case {
 
 // Shrink: drop an append or a render, drop items of an append, cut the tail.
 func (c20) Shrink(c *Case) []*Case {
+	if c.Meta["kind"] == "snap" {
+		return c20sShrink(c)
+	}
 	ops := c.Meta["ops"].([]c20Op)
 	var out []*Case
 	without := func(i int) []c20Op {
